@@ -463,6 +463,9 @@ def _run(case, res, tf):
             # values seen under another time type are not compared with what follows
             forget()
             st_["retyped"] = True
+            # from here on cached values, saved states and the clock may belong to different time types: the rest of the history
+            # is not judged, except that the enclosing time contexts must still restore the time they found
+            st_["stop"] = True
             res.label("time_type_changed_inside_context")
         elif k == "jumpraw":
             tf(op[1])
